@@ -12,7 +12,7 @@ META = dict(
                 "together with io.EOF, (0, nil) reads) with the part body defined as all bytes handed out; a control configuration with the as-built fileInfo must fail. "
                 "Every generated tree is then built from real Nodes, serialised by NewMultiFileReader (raw parts compared "
                 "with the model's part list) and parsed by NewFileFromPartReader (full and shallow walk compared with the "
-                "model's result), in form-data and attachment mode."),
+                "model's result), in form-data and attachment mode, the stream read through large and one-byte buffers."),
     level_note=("Trusted: mime/multipart, mime.ParseMediaType, net/url; harness projection (character tokens -> bytes, "
                 "Content-Disposition text of a model part). Names are single valid path components (not '.', '..', no '/')."),
     technique="TLA+ character-level serialize/parse model; TLC-enumerated trees replayed through NewMultiFileReader -> multipart.Reader -> NewFileFromPartReader",
@@ -29,7 +29,7 @@ def run(ctx):
                        "{setuid,setgid,sticky subsets} x {no permission bit,0001,0644,0777}; Read behaviours: <=2/3 nodes, file "
                        "contents of 0/1/3 bytes x 6 Read scripts of the sender's file node: all at once / byte by byte, io.EOF "
                        "alone / with the last bytes, (0,nil) reads, short read) plus sampled 4-node trees over 11 names; "
-                       "MultiFileReader drained by io.ReadAll and through a 1-byte buffer; "
+                       "MultiFileReader drained through 4096-byte and 1-byte buffers (stream must end after one closing delimiter); "
                        "each in form and attachment mode, full and shallow walk. non-trivial = a directory with a child, or a "
                        "node carrying a mode or an mtime, or a non-empty file with a non-default Read behaviour")
     S = "Multipart"
@@ -70,14 +70,21 @@ def run(ctx):
             done[name] = mc_gen(cfg, workers=workers)
         except Exception as e:
             done[name] = e
-    threads = [threading.Thread(target=job, args=j) for j in jobs]
+    nsim = 30 if ctx.quick else 800
+
+    def simjob():
+        try:
+            done["sim"] = ctx.tlc_gen(S, "GenMultipart.tla", "GenMultipartSim.cfg", simulate=nsim, depth=5 * 10 + 1, timeout=3000)
+        except Exception as e:
+            done["sim"] = e
+    threads = [threading.Thread(target=job, args=j) for j in jobs] + [threading.Thread(target=simjob)]
     for t in threads:
         t.start()
         time.sleep(0.2)        # scratch directory names are derived from the clock
     for t in threads:
         t.join()
-    for name, _, _ in jobs:
-        if isinstance(done.get(name), Exception):
+    for name in done:
+        if isinstance(done[name], Exception):
             raise done[name]
     sets = [(name, done[name]) for name, _, _ in jobs]
     ctl = ctx.tlc_mc(S, "MCMultipart.tla", "MCMultipartAsBuilt.cfg", timeout=900, deadlock=False, expect_violation=True)
@@ -88,9 +95,7 @@ def run(ctx):
         ctx.tlc_mc(S, "MCMultipart.tla", "MCMultipartMeta.cfg", timeout=6000, deadlock=False)
         sets.append(("struct4", ctx.tlc_gen(S, "GenMultipart.tla", "GenMultipartBig.cfg", timeout=6000, workers=8)))
         sets.append(("meta3", ctx.tlc_gen(S, "GenMultipart.tla", "GenMultipartMetaBig.cfg", timeout=6000, workers=8)))
-    nsim = 30 if ctx.quick else 800
-    sets.append(("sim", ctx.tlc_gen(S, "GenMultipart.tla", "GenMultipartSim.cfg", simulate=nsim, depth=5 * 10 + 1,
-                                    timeout=3000)))
+    sets.append(("sim", done["sim"]))
     builder.join()
     if "err" in built:
         raise built["err"]
